@@ -11,17 +11,20 @@ open Uniflow.ATracer (getL_setOrDel getL_aset)
 
 /-- `Write(nil, in)`: the request that derived nothing is answered with itself -/
 theorem HI_echo_self (kinds : List Kind) (links : List (Nat × List Tgt)) (hwf : GraphWF5 kinds links) (aa : Nat → A) (g : G)
-    (h : HI kinds links aa D0 g) (n : Nat) (nd : Node) (i : Rid) (inbox : List Pkt) (q : Pkt)
-    (hn : getNode g.nodes n = some nd) (hg : getThread nd.threads i = some { inbox := inbox, pc := .emit [.write none q] })
+    (h : HI kinds links aa D0 g) (n : Nat) (nd : Node) (i : Rid) (inbox : List Pkt) (w : Option Wid) (q : Pkt)
+    (hn : getNode g.nodes n = some nd) (hg : getThread nd.threads i = some { inbox := inbox, pc := .emit [.write w q] })
     (hX : (⟨q.id, i, .cells []⟩ : Req) ∈ (aa n).reqs) :
     ∃ nd' ev, Node.step nd (.op i false) = some (nd', ev) ∧
-      HI kinds links (updA aa n (awrite (aa n) none q.id (.pay q.pay) false).1) D0
+      HI kinds links (updA aa n (awrite (aa n) w q.id (.pay q.pay) false).1) D0
         (putNode (logEcho g q) n nd' ev) := by
   have hjb := h.jb n nd hn
   have hnl := h.nl n nd hn i _ hg
   have hi63 : i < 63 :=
     Nat.lt_of_lt_of_le (getThread_lt _ _ _ hg) (by rw [h.thr n nd hn]; exact nIn_le _ (h.kindOK n nd hn))
-  obtain ⟨hst, hjb', _⟩ := jbm_op nd (aa n) g.next hjb i inbox (.write none q) [] hg false
+  obtain ⟨hst, hjb', _⟩ := jbm_op nd (aa n) g.next hjb i inbox (.write w q) [] hg false
+  have hwe : awrite (aa n) w q.id (.pay q.pay) false = afill (aa n) q.id (.pay q.pay) := by cases w <;> rfl
+  have hac : acall (aa n) (opCall false (.write w q)) = afill (aa n) q.id (.pay q.pay) := hwe
+  rw [hac] at hst hjb'
   have hqi : q.id ∈ ids (aa n).reqs := mem_ids_of_mem hX (by simp [idsR])
   have hqlt : q.id < g.next := hjb.bnd q.id (List.mem_append_left _ hqi)
   have hdis := jbm_disj nd (aa n) g.next hjb i _ hg q.id hqi
@@ -31,22 +34,21 @@ theorem HI_echo_self (kinds : List Kind) (links : List (Nat × List Tgt)) (hwf :
     refine ⟨hqU, fun x hxne => ⟨rfl, rfl, ?_, rfl⟩⟩
     show aget (aset g.log.echo q.id q.pay) x = _
     rw [aget_aset]; simp [hxne]
-  obtain ⟨ds, d1, d2, d3, d4, d5, d6, d7⟩ := nlt_echo_self g.log lg' n i inbox (aa n) q hnl hjb.j.inv.nodup hX hx
+  obtain ⟨ds, d1, d2, d3, d4, d5, d6, d7⟩ := nlt_echo_self g.log lg' n i inbox (aa n) w q hnl hjb.j.inv.nodup hX hx
     (by show aget (aset g.log.echo q.id q.pay) q.id = _; rw [aget_aset]; simp)
     (fun x hx' e => hdis (by simp only [tids, List.mem_append, List.mem_map]; left; exact ⟨x, hx', e⟩))
     (fun _ _ => rfl)
   refine ⟨_, _, hst, ?_⟩
-  have hev : (acall (aa n) (opCall false (.write none q))).2 = ds.map (fun d => Ev.reply i d.2) := d2
-  rw [hev]
-  have hwe : awrite (aa n) none q.id (.pay q.pay) false = afill (aa n) q.id (.pay q.pay) := rfl
-  rw [hwe]
+  rw [d2, hwe]
   exact HI_thread_debt kinds links hwf aa g h n nd
-    { nd with tr := (tcall nd.tr (opCall false (.write none q))).1,
+    { nd with tr := (tcall nd.tr (opCall false (.write w q))).1,
               threads := setThread nd.threads i { inbox := inbox, pc := nextPc [] } } i _
     { inbox := inbox, pc := nextPc [] }
     (afill (aa n) q.id (.pay q.pay)).1 lg' q.id g.writers ds hn hg rfl (hths_of_set nd.threads i _ _ hg) hjb' d1 d5
-    (rdr_acall (aa n) (opCall false (.write none q)) (fun r => r < nd.threads.length) (h.rdr n nd hn)
-      (fun r hr => by simp [opCall, newReads] at hr))
+    (by
+      have := rdr_acall (aa n) (opCall false (.write w q)) (fun r => r < nd.threads.length) (h.rdr n nd hn)
+        (fun r hr => by simp [opCall, newReads] at hr)
+      rw [hac] at this; exact this)
     rfl d4 d6 hx rfl
     (by
       intro id hid
@@ -69,10 +71,10 @@ theorem HI_write_rej (kinds : List Kind) (links : List (Nat × List Tgt)) (hwf :
         (putNode (logEcho g q) n nd' ev) := by
   have hjb := h.jb n nd hn
   have hnl := h.nl n nd hn i _ hg
-  rcases write_shape g.log n nd (aa n) g.next hjb i inbox w q ops hg hnl with ⟨e1, e2, hXe⟩ |
+  rcases write_shape g.log n nd (aa n) g.next hjb i inbox w q ops hg hnl with ⟨e1, e2⟩ |
     ⟨p, cs, rest, hX, hl, hrem0, hqU, hqo, hqlt, hki, hkr⟩
-  · subst e1; subst e2
-    exact HI_echo_self kinds links hwf aa g h n nd i inbox q hn hg hXe
+  · subst e1
+    exact HI_echo_self kinds links hwf aa g h n nd i inbox w q hn hg e2
   obtain ⟨hst, hjb', _⟩ := jbm_op nd (aa n) g.next hjb i inbox (.write w q) ops hg false
   let lg' : Log := { g.log with echo := aset g.log.echo q.id q.pay }
   have hx : LogExt g.log lg' q.id := by
